@@ -254,11 +254,30 @@ func (s *settings) GetBySwampName(swampName name.Name) setting.Setting {
 	defer s.mu.RUnlock()
 
 	if len(s.patterns) > 0 {
+		// Several registered patterns can match one swamp (e.g. s/r/w, s/r/* and s/*/*).
+		// Map iteration order is random, so returning the first match made the applied
+		// settings change from call to call. Pick the most specific match instead: an exact
+		// realm outranks an exact swamp part, which outranks wildcards; the pattern string
+		// breaks the remaining ties, so the choice never depends on iteration order.
+		var best setting.Setting
+		bestRank := -1
 		for _, pi := range s.patterns {
 			// compare if the pattern is math with the swamp name
 			if swampName.ComparePattern(pi.GetPattern()) {
-				return pi
+				rank := 0
+				if pi.GetPattern().GetRealmName() != "*" {
+					rank += 2
+				}
+				if pi.GetPattern().GetSwampName() != "*" {
+					rank++
+				}
+				if rank > bestRank || (rank == bestRank && pi.GetPattern().Get() < best.GetPattern().Get()) {
+					best, bestRank = pi, rank
+				}
 			}
+		}
+		if best != nil {
+			return best
 		}
 	}
 
